@@ -250,7 +250,13 @@ class StmtMixin:
 
     # ---------------------------------------------------------------- control flow
     def ex_If(self, s, fr):
-        c = self.truth(self.ev(s.test, fr))
+        c = None
+        if isinstance(s.test, ast.BoolOp) and self.is_simple(s.test):
+            ok, v = self.ev_merged(s.test, fr)
+            if ok:
+                c = self.truth(v)
+        if c is None:
+            c = self.truth(self.ev(s.test, fr))
         d = c if isinstance(c, bool) else self.path.branch(c)
         self.exec_block(s.body if d else s.orelse, fr)
 
@@ -433,7 +439,7 @@ class StmtMixin:
             try:
                 if isinstance(lv, ast.Name):
                     obj = self.ev(lv, fr)
-                    if lv.id in lc.locals and not isinstance(obj, (VBox, VStruct)):
+                    if lv.id in lc.locals:
                         fr.env[lv.id] = self.sym_of_sort(lc.locals[lv.id], lv.id, fr)
                         continue
                     if isinstance(obj, (VBox, VStruct)):
